@@ -185,6 +185,30 @@ def scenarios(tier):
                                 features={'role': role, 'sequence': 'Gx%d' % n, 'n_requests': n, 'packing': cls,
                                           'origins_differ': False, 'has_body': False, 'connection_header': 'none',
                                           '_exps': [b[1] for b in built], '_bound': 0}))
+    # two LARGE exchanges pipelined towards an ordinary sequential origin (it writes the whole response to request 1
+    # before it reads request 2) over 4 KiB kernel buffers: the proxy must keep relaying response 1 while request 2
+    # is still queued for the origin -- or neither side can ever move again
+    for role in ('forward', 'reverse'):
+        if role == 'forward':
+            fa, fo, origins = ['--threadless'], {}, {ADDR['a']: (lambda: HttpOrigin([], respond=stamp_response('a'), sequential=True))}
+            tgt = lambda i: (b'http://a.test/x%d' % i, b'Host: a.test\r\n', b'/x%d' % i, 'a')      # noqa: E731
+        else:
+            fa, fo = ['--threadless', '--enable-reverse-proxy'], {'plugins': [rev_plugin()]}
+            origins = {ADDR['u1']: (lambda: HttpOrigin([], respond=stamp_response('u1'), sequential=True))}
+            tgt = lambda i: (b'/r1/x%d' % i, b'Host: front\r\n', b'/p1', 'u1')      # noqa: E731
+        reqs, exps = [], []
+        for i in range(2):
+            body = bytes((i * 7 + k) % 251 for k in range(30000))
+            t, hh, ep, eo = tgt(i)
+            reqs.append(b'POST %s HTTP/1.1\r\n%sContent-Length: %d\r\n\r\n' % (t, hh, len(body)) + body)
+            exps.append({'origin': eo, 'method': b'POST', 'path': ep, 'body': body})
+        for cls, pieces in (('all_in_one', [reqs[0] + reqs[1]]), ('per_request_pipelined', reqs)):
+            out.append(Scenario('%s/PPbig/%s/sequential-origin' % (role, cls), fa, flags_opts=fo, mode='local',
+                                clients=[dict(script=[('send', p) for p in pieces] + [('wait_idle',), ('close',)])],
+                                origins=origins, dns=DNS, kinds='', horizon=6000,
+                                features={'role': role, 'sequence': 'PPbig', 'n_requests': 2, 'packing': cls,
+                                          'origins_differ': False, 'has_body': True, 'connection_header': 'none',
+                                          'sequential_origin': True, '_exps': exps, '_bound': 0, '_sockbuf': 4096}))
     return out
 
 
